@@ -425,6 +425,20 @@ def counting_loop(fn, L):
                 return 1 if r['op'] == '+' else -1
         return None
     inside = [w for w in writes_to(fn, iv, L) if not (n.get('init', -1) is not None and n.get('init', -1) >= 0 and fn.contains(n['init'], w))]
+
+    def through_pointer(w):
+        # `p->f()`, `(*p).f()`, `g(*p)`, `g(p[k])`: the pointee may change, the pointer / iterator itself does not
+        m = fn.N(w)
+        if m['k'] not in CALL_KINDS:
+            return False
+        if any(fn.ref_of(a_) == iv for a_ in fn.args(w)):
+            return False
+        o = fn.obj(w)
+        if o is not None and fn.ref_of(o) == iv:
+            callee = fn.N(fn.strip(m['ch'][0])) if m['ch'] else {}
+            return bool(callee.get('arrow'))
+        return True
+    inside = [w for w in inside if not through_pointer(w)]
     steps = [step_of(w) for w in inside]
     if len(inside) != 1 or steps[0] is None:
         return None
@@ -610,3 +624,85 @@ def expr_calls_deep(fn, node, depth=3):
                 nxt |= set(x for x in fn.subtree_refs(ds[0][1]) if x.startswith('v:'))
         frontier = nxt
     return out
+
+
+def true_only_after(fn, ret, events, depth=0):
+    """the value returned by `ret` can be true only if one of `events` was evaluated before: a constant false return is fine; a
+    constant true return must be dominated by an event; a returned bool local must get its non-false values only at points
+    dominated by an event (`removed = true` right after the erase; `return removed`)"""
+    v = fn.ret_value(ret)
+    if v is None:
+        return False
+    cv = fn.const_value(v)
+    if cv is not None:
+        return cv == 0 or any(before(fn, e, ret) for e in events)
+    r = fn.ref_of(v)
+    if r and r.startswith('v:') and depth < 2:
+        ok = True
+        for (d, val) in fn.defs_of_var(r):
+            if val is None:
+                return False
+            c = fn.const_value(val)
+            if c == 0:
+                continue
+            pd = fn.point_of(d)
+            if pd is None or not any(before(fn, e, d) for e in events):
+                ok = False
+        return ok
+    return any(before(fn, e, ret) for e in events)
+
+
+def symb_with_locals(fn, exclude=()):
+    """lin.Symb for `fn` in which single-definition locals with a linear initialiser stand for that initialiser
+    (`size_t rec_size = a + b;` ... `x + rec_size`  ->  x + a + b)"""
+    from . import lin as _lin
+    env = {}
+    for _ in range(3):
+        S0 = _lin.Symb(fn, env)
+        for i in fn.all_nodes():
+            if fn.N(i)['k'] == 'DeclStmt':
+                for d in fn.N(i)['decls']:
+                    if d.get('init') is not None and d['ref'] not in exclude and len(fn.defs_of_var(d['ref'])) == 1 and not d.get('isref'):
+                        env[d['ref']] = S0.lin(d['init'])
+    return _lin.Symb(fn, env)
+
+
+def canon(fn, i, swap=None):
+    """canonical text of a statement / expression tree: node kinds, operators and names (locals and parameters by name, fields and
+    functions by their last component), casts and parentheses dropped.  `swap`: dict of names exchanged (mirror image)"""
+    swap = swap or {}
+
+    def nm(r):
+        base = r.split(':', 1)[1] if ':' in r else r
+        base = base.split('@')[0].split('#')[0]
+        base = strip_targs(base).rsplit('::', 1)[-1].split('(')[0]
+        return swap.get(base, base)
+
+    def go(j):
+        j = fn.strip(j)
+        n = fn.N(j)
+        k = n['k']
+        if k == 'CompoundStmt' and len(n['ch']) == 1:
+            return go(n['ch'][0])
+        parts = [k]
+        if 'op' in n:
+            parts.append(n['op'])
+        if 'ref' in n and k in ('DeclRefExpr', 'MemberExpr'):
+            parts.append(nm(n['ref']))
+        if 'cv' in n and k in ('IntegerLiteral', 'CXXBoolLiteralExpr', 'CharacterLiteral'):
+            parts.append(str(n['cv']))
+        if k == 'IfStmt':
+            kids = [n.get('cond', -1), n.get('then', -1), n.get('else', -1)]
+        elif k == 'ReturnStmt' or k == 'InlReturnStmt':
+            kids = n['ch']
+        else:
+            kids = n['ch']
+        if k in CALL_KINDS and n.get('cn'):
+            parts.append(nm('x:' + n['cn']))
+        return '(' + ' '.join(parts + [go(c) for c in kids if c is not None and c >= 0]) + ')'
+    return go(i)
+
+
+def body_statements(fn):
+    b = fn.N(fn.body)
+    return list(b['ch']) if b['k'] == 'CompoundStmt' else [fn.body]
